@@ -429,6 +429,8 @@ def uf_family(run, r, n):
         return g2(sterm(d - 1), sterm(d - 1))
 
     def offer(rule, args, prevs, origin):
+        if rule in ('verit_trans', 'verit_cong', 'verit_bfun_elim'):
+            prevs = [Thm(p_.prop, Var('h%d' % i_, BoolType)) for i_, p_ in enumerate(prevs)]      # a hypothesis of its own for every premise
         if rule not in theory.global_macros:
             run.stat('uf:missing:' + rule)
             return
@@ -461,7 +463,8 @@ def uf_family(run, r, n):
         elif rule in ('verit_bind', 'verit_sko_ex', 'verit_sko_forall'):
             res = z3oracle.entails(list(th.hyps), th.prop)      # the premises offered to bind are valid sequents
         else:
-            res = z3oracle.entails([p.prop for p in prevs], th.prop)
+            # a premise whose hypotheses the conclusion does not keep cannot be relied on
+            res = z3oracle.entails([p.prop for p in prevs if set(p.hyps) <= set(th.hyps)], th.prop)
         if res is None:
             run.stat('uf:undecided:' + rule)
             return
@@ -744,6 +747,9 @@ def run_check(tier, seed):
                 else:
                     a2, p2 = args, prevs
                 macro = theory.global_macros[rule]
+                # every premise gets a hypothesis of its own, so that a conclusion that drops the hypotheses of a premise it
+                # relies on shows up (it may then only rely on the premises whose hypotheses it keeps)
+                p2 = [Thm(p_.prop, Var('h%d' % i_, BoolType)) for i_, p_ in enumerate(p2)]
                 try:
                     with contextlib.redirect_stdout(devnull):      # some rules print debugging output on failure
                         th = macro.eval(a2, p2)
@@ -772,7 +778,7 @@ def run_check(tier, seed):
                 if acc:
                     pf = PF()
                     try:
-                        gp = [pf.tr(p.prop) for p in p2]
+                        gp = [pf.tr(p.prop) for p in p2 if set(p.hyps) <= set(th.hyps)]
                         gc = pf.tr(th.prop)
                     except Exception as e:
                         run.stat('translate_exc:' + type(e).__name__)
